@@ -441,3 +441,51 @@ VARIANTS["C08"] = [
     R("size-inline", LC, "                jds[vertex - zero_index][clique_size - 1] += 1", "                jds[vertex - zero_index][len(c) - 1] += 1"),
     U("rows-rebuilt", LC, "        for i in reversed(indxs):\n            for jd in jds:\n                del jd[i]\n", "        jds = [[x for i, x in enumerate(jd) if i not in indxs] for jd in jds]\n"),
 ]
+
+# ------------------------------------------------------------------------------------------- C10
+MP = "gcmpy/covers/mpcc.py"
+VARIANTS["C10"] = [
+    M("reverse-dropped", MP, "sorted(cliques, key=len, reverse=True)", "sorted(cliques, key=len)", "C10.3"),
+    M("not-sorted", MP, "    cliques = sorted(cliques, key=len, reverse=True)\n", "", "C10.3"),
+    M("removes-from-input", MP, "g.remove_edges_from(list(itertools.combinations(c, 2)))", "G.remove_edges_from(list(itertools.combinations(c, 2)))", "C10.1"),
+    M("find-cliques", MP, "nx.enumerate_all_cliques(g)", "nx.find_cliques(g)", "C10.2"),
+    M("id-per-edge", MP, "        ID: int = next(clique_ID)\n        for e in itertools.combinations(c, 2):\n            G.edges", "        for e in itertools.combinations(c, 2):\n            ID: int = next(clique_ID)\n            G.edges", "C10.6"),
+    M("label-order", MP, "f\"{len(c)}-{c}-{ID}\"", "f\"{ID}-{c}-{len(c)}\"", "C10.6"),
+    M("skip-test-removed", MP, "        for e in itertools.combinations(c, 2):\n            if not g.has_edge(e[0], e[1]):\n                skip = True\n                break\n", "", "C10.4"),
+    M("limit-ge", MP, "if len(c) > max_size and max_size > 0:", "if len(c) >= max_size and max_size > 0:", "C10.5"),
+    M("claim-subset", MP, "g.remove_edges_from(list(itertools.combinations(c, 2)))", "g.remove_edges_from(list(itertools.combinations(c[1:], 2)))", "C10.4"),
+    M("no-claim", MP, "            g.remove_edges_from(list(itertools.combinations(c, 2)))\n", "", "C10.4"),
+    M("returns-copy", MP, "    return G\n", "    return g\n", "C10.1"),
+    M("guard-inverted", MP, "        if not skip:\n            cover.append(c)", "        if skip:\n            cover.append(c)", "C10.4"),
+    M("flag-not-reset", MP, "    for c in cliques:\n        if len(c) > max_size and max_size > 0:\n            continue\n\n        skip: bool = False\n", "    skip: bool = False\n    for c in cliques:\n        if len(c) > max_size and max_size > 0:\n            continue\n\n", "C10.4"),
+    M("label-subset", MP, "        for e in itertools.combinations(c, 2):\n            G.edges", "        for e in itertools.combinations(c[:-1], 2):\n            G.edges", "C10.6"),
+    M("limit-no-positive", MP, "if len(c) > max_size and max_size > 0:", "if len(c) > max_size:", "C10.5"),
+    M("counter-in-loop", MP, "    clique_ID: int = itertools.count(0)\n    for c in cover:\n        ID: int = next(clique_ID)", "    for c in cover:\n        clique_ID: int = itertools.count(0)\n        ID: int = next(clique_ID)", "C10.6"),
+    R("no-shuffle", MP, "    shuffle(cliques)\n", ""),
+    R("sort-in-place", MP, "    cliques = sorted(cliques, key=len, reverse=True)\n", "    cliques.sort(key=len, reverse=True)\n"),
+    R("has-edge-star", MP, "if not g.has_edge(e[0], e[1]):", "if not g.has_edge(*e):"),
+]
+
+# ------------------------------------------------------------------------------------------- C09
+EE = "gcmpy/covers/eecc.py"
+NW = "gcmpy/network/network.py"
+VARIANTS["C09"] = [
+    ME("revert-D9", [(EE, "for nc in combinations(sorted(C[c]), self._m0):", "for nc in sorted(combinations(C[c], self._m0)):")], "C09.4"),
+    M("removal-inner-from-i", EE, "            for i in range(max_ord):\n                for j in range(i + 1, max_ord):", "            for i in range(max_ord):\n                for j in range(i + 2, max_ord):", "C09.2"),
+    M("removal-deleted", EE, "            for i in range(max_ord):\n                for j in range(i + 1, max_ord):\n                    # assumes edges are ordered i < j\n                    self.remove_edge(cli[i], cli[j])\n", "", "C09.2"),
+    M("guard-ge", EE, "if clique_size > self._m0:", "if clique_size >= self._m0:", "C09.3"),
+    M("subsets-m0-minus-1", EE, "combinations(sorted(C[c]), self._m0)", "combinations(sorted(C[c]), self._m0 - 1)", "C09.3"),
+    M("break-in-main-loop", EE, "            cli = C[idx]\n            EC.append(cli)\n", "            cli = C[idx]\n            EC.append(cli)\n            if len(EC) > 1000:\n                break\n", "C09.1"),
+    M("indxs-dropped", EE, "                indxs.append(c)\n", "", "C09.3"),
+    M("sweep-removed", EE, "            C = Ctemp\n            ord = ordtemp\n            r = rtemp\n            for c in range(len(EC)):\n                order = len(EC[c])\n\n                for i in range(order):\n                    for j in range(i + 1, order):\n                        self.remove_edge(EC[c][i], EC[c][j])\n",
+      "            C = Ctemp\n            ord = ordtemp\n            r = rtemp\n", "C09.2"),
+    M("score0-condition", EE, "            if r[c] == 0:\n                EC.append(C[c])", "            if r[c] <= 0.5:\n                EC.append(C[c])", "C09.5"),
+    M("scan-stops-early", EE, "while n <= num_cliques - 1:", "while n < num_cliques - 1:", "C09.6"),
+    M("has-edges-ge", NW, "return len(self._G.edges()) > 0", "return len(self._G.edges()) > 1", "C09.1"),
+    M("lockstep-broken", EE, "            Ctemp = []\n            ordtemp = []\n            rtemp = []\n            for i in idxs:\n                Ctemp.append(C[i])\n                ordtemp.append(ord[i])\n                rtemp.append(r[i])",
+      "            Ctemp = []\n            ordtemp = []\n            rtemp = []\n            for i in idxs:\n                Ctemp.append(C[i])\n                ordtemp.append(ord[0])\n                rtemp.append(r[i])", "C09.2"),
+    M("whole-not-sorted", EE, "            else:\n                C[c] = sorted(C[c])\n", "            else:\n                pass\n", "C09.4"),
+    M("max-ord-is-min", EE, "                if ord[idx] > max_ord:", "                if ord[idx] < max_ord:", "C09.5"),
+    R("min-to-max-heuristic", EE, "            min_r: float = min(r)", "            min_r: float = max(r)"),
+    R("len-cli-bound", EE, "            for i in range(max_ord):\n                for j in range(i + 1, max_ord):", "            for i in range(len(cli)):\n                for j in range(i + 1, len(cli)):"),
+]
